@@ -113,7 +113,8 @@ CLAIMED = {
              'SUBS PC,LR/RFE/SRS/LDM^/STM^/SVC/SMC words in every mode and three extension configurations, and entry+return '
              'programs, all judged by TLC on the full state. Coprocessor gating: CDP/MCR/MRC/MCRR/MRRC/LDC/STC (A1/A2/T1/T2) x '
              'coprocessor number x every CPACR.cp<n> value x NSACR.cp<n> x security state x mode: TLC requires exactly the '
-             'Undefined Instruction entry when access control denies and the not-implemented coprocessor hook otherwise. '
+             'Undefined Instruction entry when access control denies and the not-implemented coprocessor hook otherwise (MC_Coproc '
+             'checks the same on the spec against the property\'s wording). '
              'MC_Sys: TLC explores every interleaving of Step / IRQ / FIQ (up to 2 quick, 3 thorough interrupts, FIQ preempting '
              'the IRQ handler) on a small ARM and Thumb program with an SVC and checks interrupt transparency (everything User '
              'mode sees at the end equals the program\'s meaning), Props!SpecStepOK at every step and deadlock freedom; every '
